@@ -1000,6 +1000,83 @@ def c10(work, v, tier):
     return v.finish()
 
 
+@check("C11")
+def c11(work, v, tier):
+    q = tier == "quick"
+    findings = Findings()
+    harness = lib.build_harness(work)
+    acc = dict(states=0, transitions=0, generated=0, traces=0, evaluations=0, trace_events=0, transitions_replayed=0, instances=[], tv=[], samples=[])
+    # (1) every declared query, alone: receiver unchanged (deep snapshot), repeatable, returned containers do not alias the receiver
+    frame_stage(work, v, findings, "C11", harness, "query", acc)
+    # (2) 8-16 goroutines at once on one structure, in a -race build; every answer validated by the specification
+    hr = lib.build_harness(work, race=True)
+    import subprocess
+    def parallel(salt, name):
+        casef = work.path("cq_%s.ndjson" % name)
+        logf = work.path("cqrace_%s.log" % name)
+        env = dict(os.environ, GORACE="halt_on_error=0 exitcode=0 history_size=3")
+        with open(logf, "w") as lf:
+            p = subprocess.run([hr, "cqueries", "-rounds", str(60 if q else 600), "-g", str(12 if q else 16), "-seed", str(lib.seed() * 17 + salt), "-out", casef],
+                               stdout=subprocess.PIPE, stderr=lf, text=True, env=env, timeout=3000)
+        if p.returncode != 0:
+            raise Infra("cqueries failed: " + open(logf).read()[-1500:])
+        g = json.loads(p.stdout.strip().splitlines()[-1])
+        result = work.path("cqres_%s.json" % name)
+        cfg = "\n".join(["SPECIFICATION Spec", "CONSTANTS", '  CASEFILE = "%s"' % casef, '  RESULT = "%s"' % result, "INVARIANT Done", "CHECK_DEADLOCK FALSE", ""])
+        res = lib.tlc(work, "cq_" + name, "Check_Queries", cfg, workers=1, timeout=3000)
+        r = json.load(open(result))
+        if r["consumed"] != g["lines"]:
+            raise Infra("Check_Queries consumed %s of %s lines" % (r["consumed"], g["lines"]))
+        reports = parse_race_log(open(logf).read())
+        acc["states"] += res["distinct"]; acc["traces"] += g["lines"]; acc["evaluations"] += g["lines"] * 26; acc["trace_events"] += g["lines"]
+        acc["tv"].append(dict(name="parallel-queries-" + name, structures=g["rounds"], goroutines=g["goroutines"], answer_lists_validated=g["lines"],
+                              rejected_lines=len(r["bad"]), race_reports=len(reports)))
+        viol = []
+        lines = None
+        for b in r["bad"][:2]:
+            lines = lines or lib.read_ndjson(casef)
+            rec = lines[b["line"] - 1]
+            viol.append(dict(property="C11", kind="parallel-answers", who=rec["who"], tree=rec["in"],
+                             detail=["answers of %s differ from the specification for queries %s" % (rec["who"], [rec["arg"][i - 1] for i in b["queries"]][:4]),
+                                     "observed %s" % json.dumps([rec["out"][i - 1] for i in b["queries"]][:2])[:600]],
+                             **{"class": "C11/parallel/%s" % ("isolated" if rec["who"] == "isolated" else "concurrent")}))
+        for rep in reports[:2]:
+            viol.append(dict(property="C11", kind="race", detail=["data race among concurrent queries: %s %s | %s %s" % (rep["k1"], rep["f1"], rep["k2"], rep["f2"]), rep["head"]],
+                             **{"class": "C11/race/%s|%s" % (rep["f1"], rep["f2"])}))
+        if not viol:
+            smp = lib.read_ndjson(casef, limit=2)[-1]
+            acc["samples"].append(dict(kind="parallel-answers", who=smp["who"], queries=smp["arg"][:4], answers=smp["out"][:4]))
+        return viol
+    viol = parallel(0, "a")
+    if viol:
+        iso = [x for x in viol if x["class"].endswith("isolated")]
+        if iso:      # deterministic: the isolated answer itself is wrong
+            for x in iso[:3]:
+                v.violation(x, "; ".join(x["detail"])[:600])
+        else:
+            viol2 = parallel(5, "b")
+            if not viol2:
+                raise Infra("a parallel-query violation did not recur in an independent second run (not confirmed): %s" % viol[0]["detail"][0])
+            for x in viol[:3]:
+                v.violation(x, "; ".join(x["detail"])[:600])
+    v.cov = dict(states=acc["states"], transitions=acc["transitions"], traces_validated_against_impl=acc["traces"], samples=acc["samples"][:4],
+                 evaluations=acc["evaluations"], distinct_nontrivial=acc["transitions"],
+                 rule="distinct = recorded (receiver, method, argument tuple) events of the reflection sweep, each validated by Frame.tla's QueryRule; plus one answer list per "
+                      "(structure, goroutine) validated query by query by Check_Queries.tla",
+                 trace_validation=acc["tv"], methods_enumerated_by_reflection=sorted(acc.get("methods", [])),
+                 checker_cmd="harness sweep -mode query ; tlc Frame.tla ; harness(-race) cqueries ; tlc Check_Queries.tla ; tlc RaceClass.tla (MODE=queries)",
+                 design_properties_checked_by_tlc=["QueryRule: a declared query leaves the deep snapshot, read-only flag, error and liveness unchanged and gives the same answer when repeated",
+                                                   "Answer(tree, query) from Render / Lookup / TraverseSpec / UnmarshalSpec for every recorded answer"],
+                 explanation="queries: (1) every exported non-mutating method (reflection minus the declared mutator list of Frame.tla) on 17 kinds of receivers (nested trees, "
+                             "mutex-enabled, closures installed, failing validity policy), writable and read-only: deep VerifDump snapshot before = after, repeated call gives the same "
+                             "answer, the Unmarshal result is scribbled over without the receiver noticing; (2) 12-16 goroutines issue 26 queries (String, Index, Front, Back, Traverse, "
+                             "Len, Cap, Avail, Kind, Valid, IsEqual, Unmarshal, Is...) three times each on one shared random structure with mutex-enabled nodes, half of them read-only, "
+                             "in a -race build: every answer list equals the specification's answers and no race report at all is accepted")
+    v.assumptions = ["the race-detector part is timing dependent: it can add findings, its silence proves nothing",
+                     "Less is covered by the purity sweep only (its ordering semantics are not modelled)"]
+    return v.finish()
+
+
 def replay(prop, path, work):
     harness = lib.build_harness(work)
     rc, out, _ = lib.run([harness, "replay", path], timeout=300)
